@@ -28,7 +28,7 @@ TOK_TRUSTED = [
     "connection costs enter the model through the verif_conn_cost hook for every id pair (the connectors themselves are C07's subject)",
 ]
 
-HOOK_COMMITS = ["5d5ee93", "5a2f35c"]
+HOOK_COMMITS = ["5d5ee93", "5a2f35c", "81fceb8"]
 NOT_CLAIMED = {}
 
 PROPS = {
@@ -248,5 +248,21 @@ PROPS = {
         "level_text": "Coq theorems c05_read_write (read(write d ++ rest) = (d, rest) for every well-formed dictionary value: the compositional round-trip law over the whole DictionaryInner layout, so every later operation sees identical data), c05_write_count, c05_rewrite_same, c05_lanes (a U31x8 is eight little-endian u32 whatever the build). Tied to the code on every run: the model decodes real images completely and re-encodes them to the same bytes; the oracle compares, on the implementation, D with read(write(D)) under tokenization and under later operation sequences (tokens, outcomes, final images), the reported byte count, rewriting, and portable vs AVX2 images.",
         "level_note": "Trusted: Coq kernel + vm_compute; wire-format model validated against real images; 'behaves identically' follows in the model from equality of the decoded data and is checked behaviourally on the implementation.",
         "technique": "machine-checked proof in Coq (compositional codec round-trip law) + checked model/code correspondence on real images + behavioural differential oracle",
+    },
+    "C11": {
+        "theorems": ["c11_parse_render", "c11_surface_unquoted", "c11_blank_lines"],
+        "check_targets": ["Check/C11Check.vo"],
+        "case_type": "c11case",
+        "report_fn": "c11_report",
+        "harness": "C11",
+        "n": {"quick": 3000, "thorough": 150000},
+        "rule": "2 of 3 cases = CSV rendered from 1-6 generated rows: surfaces incl. multi-byte text, commas, quotes, spaces, the empty surface, duplicates and prefixes of one another; ids 0..65535; costs incl. -32768/32767; features of 0-4 cells incl. quoted cells with commas, doubled quotes and embedded newlines, trailing empty cells; layout: optional quoting of cells that do not need it, LF / CRLF / CR terminators, leading / interior / trailing blank lines, with or without final newline; 1 of 3 = one random edit of such a file (drop / insert a comma, quote, newline, cut, duplicate a byte); parsed by the real Lexicon::parse_csv through the hook; non-trivial: well-formed file with at least two words",
+        "trusted_base": [
+            "modelled, not verified: csv-core (the model is a reference lexer for the dialect it implements with default settings, NOT a transcription of its automaton and of the span bookkeeping in parse_csv; agreement is checked on every case, corrupted files included); str::parse for u16/i16; crawdad (homograph lookup is C03's subject)",
+        ],
+        "assumptions": ["cells shorter than 4096 bytes (csv-core output buffer; longer: 'Field too large' error)", "valid UTF-8"],
+        "level_text": "Coq theorems about the reference model of Lexicon::parse_csv: c11_parse_render (for every list of rows rendered as CSV — any surface, quoted with doubled quotes when needed or by choice, any numerals parsing to the numbers, any comma-separated plain feature cells — the parser returns exactly the rows with non-empty surface, in order, surface unquoted, feature byte for byte; homographs stay distinct), c11_surface_unquoted, c11_blank_lines. Tied to the code on every run: the reference model must agree with the real parser (rows or Err) on rendered AND on corrupted files, and the oracle compares the real parser's rows with the source rows the file was rendered from (feature bytes verbatim incl. quoting, all terminators, blank lines, missing final newline) and forbids panics.",
+        "level_note": "Partial: the theorem covers features without quotes/line breaks and LF-terminated rows; quoted feature cells, CR/CRLF and missing final newline are covered by the correspondence and the oracle only. Trusted: Coq kernel + vm_compute; csv-core modelled by a reference lexer.",
+        "technique": "machine-checked proof in Coq (parse/render round trip of the reference CSV lexer) + checked model/code correspondence incl. malformed inputs",
     },
 }
